@@ -17,6 +17,8 @@
     `a ... b` (three values, one element) the next range finds `b`      → `scanArrayElems`
   * C11-05 (`delta_from_arg_vals`): for 'f' / 'd' the number of steps is the nearest integer
     (the manual: "an n must exist such that |b + n d - c| <= 0.001")        → `deltaFromArgVals`
+  * C11-07 (`rtosc_skip_next_printed_arg`): "..." behind a repetition `nxa` is a syntax error
+    (the manual: "Ranges may not overlap, i.e. no 2x1 ... 3")               → `ellipsisTail`
   * float / double range arithmetic (`C11Float.lean`) instead of `Err.unmodelled`.
 
   Only the functions on the path of these changes are written again (the recursive cores
@@ -72,7 +74,9 @@ def deltaFromArgVals (llhs : Option Cell) (lhs : Cell) (rhs : Option Cell) (must
     -- rtosc_arg_vals_eq(&width, &width2, 1, 1, {0.001})
     if !(← eqTolCell width width2) then return (-1, delta)
     let res ← must (toIntF div')
-    return (toI32 (res + 1), delta)
+    -- `return res + 1` in `int`: 2147483647 + 1 is a signed overflow ("0 ... 2147483647")
+    if res + 1 > 2147483647 ∨ res + 1 < -2147483648 then throw .undef
+    return (res + 1, delta)
   | none => return (0, delta)
 
 /-! ### the scanner -/
@@ -217,10 +221,12 @@ def ellipsisTail (sk : ArgSkipper) (oldSrc : Bytes) (sw : SwRes) (src2 : Bytes) 
   let skipped := sw.skipped
   let ellipsis := src2
   let rhssrc := skipSpace (src2.drop 3)
-  let lhssrc := if isRangeMultiplier oldSrc then afterX oldSrc else oldSrc
+  let lhssrc := oldSrc
   let lhstype : UInt8 := if sw.dlType ≠ 0 then sw.dlType else sw.type
   let numericRange := lhstype = 0 ∨ numericRangeTypes.contains lhstype
   let fail : SkipRes := { src := none, skipped := skipped, type := 45 }
+  -- fix C11-07: no range of a repetition ("2x1 ... 3", "[2x1 ...]"): `break` before anything is looked at
+  if isRangeMultiplier oldSrc then return fail
   -- in all cases, check rhs
   let rhsInfo : Option (Bytes × UInt8 × Option Cell × Bool) ←
     if hd rhssrc = 93 then pure (some (rhssrc, lhstype, none, true))
